@@ -282,6 +282,81 @@ pub fn trunc(s: &str, n: usize) -> String {
     }
 }
 
+// ---------------------------------------------------------------------------------------------
+// Watchdog for in-process checks whose property says "never hangs": each case registers itself while it
+// runs; a monitor thread reports the first case that stays registered for longer than the budget of CPU
+// time of the whole process divided by the worker count would explain (wall time alone is stretched by an
+// oversubscribed machine), writes it as a replay file and ends the run with a VIOLATION.
+
+static WATCH: std::sync::Mutex<Option<std::collections::HashMap<u64, (std::time::Instant, String)>>> = std::sync::Mutex::new(None);
+static WATCH_NEXT: std::sync::atomic::AtomicU64 = std::sync::atomic::AtomicU64::new(1);
+
+pub struct WatchGuard(u64);
+
+impl Drop for WatchGuard {
+    fn drop(&mut self) {
+        if let Ok(mut g) = WATCH.lock() {
+            if let Some(m) = g.as_mut() {
+                m.remove(&self.0);
+            }
+        }
+    }
+}
+
+/// Register the case a worker is about to run (no-op until `start_watchdog` was called).
+pub fn watch(describe: impl FnOnce() -> String) -> WatchGuard {
+    let id = WATCH_NEXT.fetch_add(1, std::sync::atomic::Ordering::Relaxed);
+    if let Ok(mut g) = WATCH.lock() {
+        if let Some(m) = g.as_mut() {
+            m.insert(id, (std::time::Instant::now(), describe()));
+        }
+    }
+    WatchGuard(id)
+}
+
+fn process_cpu_seconds() -> f64 {
+    // utime + stime of /proc/self/stat (fields 14 and 15 after the parenthesised command), in clock ticks
+    let stat = std::fs::read_to_string("/proc/self/stat").unwrap_or_default();
+    let rest = stat.rsplit(')').next().unwrap_or("");
+    let f: Vec<&str> = rest.split_whitespace().collect();
+    let ticks: f64 = f.get(11).and_then(|x| x.parse::<f64>().ok()).unwrap_or(0.0) + f.get(12).and_then(|x| x.parse::<f64>().ok()).unwrap_or(0.0);
+    ticks / 100.0
+}
+
+/// A case counts as hung when it has been running for `wall_s` seconds AND the process burnt at least
+/// `cpu_s` seconds of CPU meanwhile (so a starved machine alone never triggers it).
+pub fn start_watchdog(id: &'static str, clause: &'static str, wall_s: u64, cpu_s: f64) {
+    *WATCH.lock().unwrap() = Some(std::collections::HashMap::new());
+    std::thread::spawn(move || {
+        let mut suspect: Option<(u64, f64)> = None;
+        loop {
+            std::thread::sleep(std::time::Duration::from_millis(500));
+            let oldest = WATCH.lock().ok().and_then(|g| g.as_ref().and_then(|m| m.iter().min_by_key(|(_, (t, _))| *t).map(|(k, (t, d))| (*k, t.elapsed().as_secs(), d.clone()))));
+            let Some((k, age, text)) = oldest else { continue };
+            if age < wall_s {
+                suspect = None;
+                continue;
+            }
+            let cpu = process_cpu_seconds();
+            match suspect {
+                Some((sk, c0)) if sk == k => {
+                    if cpu - c0 >= cpu_s {
+                        let dir = format!("{VERIF_DIR}/replays/{id}");
+                        std::fs::create_dir_all(&dir).ok();
+                        let path = format!("{dir}/hang.json");
+                        let j = serde_json::json!({"property": id, "clause": clause, "case": {"text": text, "running_for_s": age}, "replay": {"text": text}, "tier": "quick", "how": format!("./check {id} --replay {path}")});
+                        std::fs::write(&path, serde_json::to_string_pretty(&j).unwrap()).ok();
+                        eprintln!("violation[0] clause: {clause}\n  case: {}", trunc(&text, 600));
+                        println!("VIOLATION property={id} replay={path}");
+                        std::process::exit(1);
+                    }
+                }
+                _ => suspect = Some((k, cpu)),
+            }
+        }
+    });
+}
+
 pub fn hex(b: &[u8]) -> String {
     b.iter().map(|x| format!("{x:02x}")).collect::<Vec<_>>().join(" ")
 }
